@@ -523,7 +523,13 @@ def run_multiset_case(mc, scratch, out=None, tag="ms"):
     ra = all_recs(a)
     inp = dict(multiset_case=mc)
     try:
-        if op[0] == "copy":
+        if op[0] == "copy" and len(op) > 2:
+            # copy of a *file-backed* db (written first): neither the copy nor the file may change
+            sig = f"copy:{op[1]}:file-backed"
+            w = copy_db(a, "write", scratch, tag)
+            c = copy_db(w, op[1], scratch, tag)
+            got, want = dict(copy=all_recs(c), source_after=all_recs(w)), dict(copy=ra, source_after=ra)
+        elif op[0] == "copy":
             c = copy_db(a, op[1], scratch, tag)
             got, want = all_recs(c), ra
             sig = f"copy:{op[1]}:{mc['a']['kind']}"
@@ -573,7 +579,7 @@ def run_multiset_case(mc, scratch, out=None, tag="ms"):
     if out is not None:
         out["evaluations"] += 1
         bump(out, "multiset_op", op[0] + (":" + str(op[1]) if op[0] == "copy" else ""))
-        if isinstance(want, list) and want:
+        if isinstance(want, (list, dict)) and want:
             out["nontrivial"].add(("ms", json.dumps(mc, sort_keys=True)[:300]))
     if got != want:
         fails.append((f"{op[0]} does not preserve / select the multiset of records", inp, want, got, sig))
@@ -614,7 +620,7 @@ def spec_check(ctx, budget):
         a = _one_block(build_case(rng, ka, ha, rng.choice([0, 1, 2, 3, 5])))
         r = rng.random()
         if r < 0.3:
-            mc = dict(a=a, b=None, op=["copy", COPIES[i % len(COPIES)]])
+            mc = dict(a=a, b=None, op=["copy", COPIES[i % len(COPIES)]] + (["file-backed"] if rng.random() < 0.5 else []))
         elif r < 0.65:
             qs = gen_queries(rng, a["intent"], 3)
             mc = dict(a=a, b=None, op=["subset", rng.choice(qs)])
@@ -935,6 +941,8 @@ def _op_histories(ctx, out, rng, scratch):
                     dbs.append(dbs[i].subset(**{a: b for a, b in q.items() if b is not None}))
                 else:
                     how = rng.choice(COPIES)
+                    if how == "json" and dbs[i].source != ":memory:":
+                        how = "deepcopy"  # json round trip of a file-backed db re-opens the file: spec_check's job
                     mops.append(["copy", i])
                     log.append(f"copy {how}")
                     # the model has no notion of open transactions: commit first (the write-after-update hang is spec_check's job)
